@@ -420,6 +420,19 @@ Proof.
   - exact He.
 Qed.
 
+Lemma sat_facts (m : assignment) :
+  models m C = true -> (forall x, In x (e_assum e) -> lit_true m x = true) ->
+  ext esem F (dyn_a2e (e_vars e) m) /\ NoDup (dyn_a2e (e_vars e) m) /\ incl (dyn_a2e (e_vars e) m) ids /\
+  (forall a, In a ids -> value_of m (avar e a) <> None).
+Proof.
+  intros Hm Ha. split; [|split; [|split]].
+  - apply (ext_seteq esem F _ _ (seteq_sym _ _ (dyn_a2e_seteq m))).
+    apply bridge_sound; [apply models_vmodels, Hm|]. intros x Hx. apply lit_true_vtrue, Ha, Hx.
+  - apply (dyn_a2e_wf L af e m Ht Hcv).
+  - intros id Hid. apply in_dyn_a2e in Hid. tauto.
+  - intros a Hi. apply model_total; auto.
+Qed.
+
 Lemma valid_unsat_facts (extra : lit) X :
   (forall v : val, vmodels v C = true -> forallb (vtrue v) (e_assum e ++ [extra]) = true -> False) ->
   ext esem F X -> forall m : val, (forall a, In a ids -> (m (avar e a) = true <-> In a X)) -> vmodels m C = true ->
